@@ -179,6 +179,16 @@ class Path:
             open('/tmp/pyvc_dump_%d.smt2' % len(self.obligations), 'w').write(
                 s.to_smt2())
         r = safe_check(s, quick_ms)
+        if r not in (z3.unsat, z3.sat):
+            # quantifier instantiation is sensitive to the search order: an
+            # `unknown` (often returned well before the time limit, and more
+            # often on a busy machine) is retried under other random seeds
+            for seed in (7, 23, 101):
+                s = mk(quick_ms)
+                s.set('random_seed', seed)
+                r = safe_check(s, quick_ms)
+                if r in (z3.unsat, z3.sat):
+                    break
         backend = 'z3-%s' % z3.get_version_string()
         status = 'proved' if r == z3.unsat else (
             'failed' if r == z3.sat else 'unknown')
